@@ -8,7 +8,7 @@ import nixio
 from nixio.exceptions import DuplicateName
 
 from ..lib import core, storegen
-from . import c03_gen
+from . import c03_gen, c03_prov
 from ..lib.core import Failure, Disagreement
 
 PROP = "C03"
@@ -36,6 +36,13 @@ THEOREMS = [
     "Nix.C03.id_stable",
     "Nix.C03.id_stable_x",
     "Nix.C03.order_after_delete",
+    "Nix.C03.membership_by_entity",
+    "Nix.C03.membership_by_entity_link",
+    "Nix.C03.membership_by_handle",
+    "Nix.C03.membership_by_entity_wrong_kind",
+    "Nix.C03.delete_by_entity",
+    "Nix.C03.delete_key_forms_agree",
+    "Nix.C03.demoL_reachable",
     "Nix.C03.link_append_last",
     "Nix.C03.link_unlink_keeps_rest",
     "Nix.C03.legal_name_accepted_block",
@@ -43,6 +50,10 @@ THEOREMS = [
     "Nix.C03.legal_name_accepted_in",
     "Nix.C03.legal_name_accepted_frame",
     "Nix.C03.legal_name_accepted_section",
+    "Nix.C03.legal_name_accepted_in_full",
+    "Nix.C03.legal_name_accepted_multi_tag_full",
+    "Nix.C03.legal_name_accepted_frame_full",
+    "Nix.C03.legal_name_accepted_section_full",
     "Nix.C03.other_kinds_untouched_frame",
     "Nix.C03.other_kinds_untouched_in",
     "Nix.C03.legal_name_accepted_partial",
@@ -51,6 +62,12 @@ THEOREMS = [
     "Nix.C03.create_shape_tests_own_container",
     "Nix.C03.create_shape_matches_model",
     "Nix.C03.create_shape_functions",
+    "Nix.C03.contains_shape_plain",
+    "Nix.C03.contains_shape_link",
+    "Nix.C03.getitem_shape_plain",
+    "Nix.C03.getitem_shape_link",
+    "Nix.C03.h5_lookup_shape",
+    "Nix.C03.contains_shape_by_handle",
     "Nix.C03.dispatch_agrees_on_pool",
     "Nix.C03.pool_uuidish",
 ]
@@ -110,9 +127,13 @@ NAMES = storegen.NAMES_PLAIN + storegen.NAMES_UUIDISH
 
 
 def extract(repo):
-    """shape of the create functions (which container is tested for DuplicateName, which one is created into)"""
-    from ..extract import c03_createshape
-    return c03_createshape.extract(repo)
+    """shape of the create functions (which container is tested for DuplicateName, which one is created into) and the
+    decision trees of the container lookups"""
+    from ..extract import c03_createshape, c03_contshape
+    out = dict(c03_createshape.extract(repo))
+    # decision trees of Container / LinkContainer __contains__ / __getitem__ and H5Group.get_by_id_or_name
+    out.update(c03_contshape.extract(repo))
+    return out
 
 
 # ---------------------------------------------------------------------------------------
@@ -259,6 +280,13 @@ def _check_container(tr, fails, history, cached=False):
                                      tr.label))
             except IndexError:
                 pass
+        try:
+            pairs = [(k, (e.name, e.id)) for k, e in cont.items()]
+            if pairs != [(i, (nm, i)) for nm, i in exp]:
+                fails.append(Failure("items() differs from the (id, entity) pairs in creation order", history(), pairs,
+                                     [[i, [nm, i]] for nm, i in exp], tr.label))
+        except Exception as ex:
+            fails.append(Failure("items() raises", history(), type(ex).__name__, "pairs", tr.label))
         ids = {i for _, i in exp}
         for nm, i in exp:
             clash = nm in ids and storegen.real_uuid(nm)
@@ -630,8 +658,16 @@ def _link_scenario(ctx, rng, steps, tag):
                 log.append(["append", label, nm])
                 target = next(x for x in getattr(blk(), kind) if x.id == i)
                 try:
-                    cont.append(target)
-                    exp[label] = [x for x in exp[label] if x != (nm, i)] + [(nm, i)]
+                    if rng.random() < 0.2:
+                        # extend = append one after the other
+                        nm2, i2 = rng.choice(pool[kind])
+                        log[-1] = ["extend", label, [nm, nm2]]
+                        cont.extend([target, next(x for x in getattr(blk(), kind) if x.id == i2)])
+                        exp[label] = [x for x in exp[label] if x != (nm, i)] + [(nm, i)]
+                        exp[label] = [x for x in exp[label] if x != (nm2, i2)] + [(nm2, i2)]
+                    else:
+                        cont.append(target)
+                        exp[label] = [x for x in exp[label] if x != (nm, i)] + [(nm, i)]
                 except Exception as ex:
                     fails.append(Failure("append of an entity of the same block refused with %s" % type(ex).__name__,
                                          list(log), type(ex).__name__, "appended", label))
@@ -713,6 +749,11 @@ def oracle(ctx, broken, hints):
         evals += e
         if k % 2 == 0:
             fs, e = _kinds_scenario(ctx, rng, str(k))
+            failures += fs
+            evals += e
+        if k % 3 == 0:
+            # handles of every provenance (create, owning container, link lists, role links, searches, kept, reopened)
+            fs, e = c03_prov.scenario(ctx, rng, steps // 2 + 5, str(k))
             failures += fs
             evals += e
         if len(failures) > 10:
